@@ -837,6 +837,25 @@ func runC04(c *Checker) {
 	if rmp == nil || wmp == nil || rt == nil || wt == nil || dh == nil || split == nil {
 		return
 	}
+	// what was read is only bound if a failed tag aborts: every DecryptAndHash of the reader
+	// (act payloads, the encrypted static key) has its error tested and returned before any
+	// success return (shared with C03 HSK-ORDER / C02 AUTHERR)
+	for _, fn := range []*ssa.Function{rmp, rt} {
+		n := 0
+		for _, ci := range findCalls(fn, func(ci ssa.CallInstruction) bool {
+			sc := ci.Common().StaticCallee()
+			return sc != nil && sc.Name() == "DecryptAndHash"
+		}) {
+			call, ok := ci.(*ssa.Call)
+			if !ok {
+				continue
+			}
+			n++
+			okk, why := errCheckedAndReturned(call, 1)
+			c.decide(okk, "HSK-BIND", fmt.Sprintf("%s|DecryptAndHash #%d|failed tag aborts", fnName(fn), n), instrPos(call), why,
+				"a failed authentication tag does not abort the act ("+why+"): what the peer sent (static key, payload, transcript) is accepted without proof, so the two sides can complete with different identities or keys")
+		}
+	}
 	// ---- HSK-BIND reader side ----
 	for _, fn := range []*ssa.Function{rmp, rt} {
 		r := ssa.Value(fn.Params[1])
